@@ -78,8 +78,9 @@ def gen_table(rng, kinds=None, nrows=None):
     from beancount.core.data import Cost
     from beanquery import Column
     all_kinds = ['int', 'decimal', 'str', 'date', 'bool', 'set', 'dict', 'object', 'amount', 'position', 'inventory', 'cost']
+    wide = kinds is None and rng.random() < 0.05       # now and then: many columns, many rows, long and large values
     if kinds is None:
-        kinds = [rng.choice(all_kinds) for _ in range(rng.randint(1, 5))]
+        kinds = [rng.choice(all_kinds) for _ in range(rng.randint(1, 5) if not wide else rng.randint(6, 12))]
     dtypes = {'int': int, 'decimal': Decimal, 'str': str, 'date': datetime.date, 'bool': bool, 'set': set, 'dict': dict, 'object': object,
               'amount': amount.Amount, 'position': position.Position, 'inventory': inventory.Inventory, 'cost': Cost}
     names = []
@@ -90,7 +91,13 @@ def gen_table(rng, kinds=None, nrows=None):
     curs = rng.sample(CURRENCIES, ncur)
     nullp = rng.choice([0, 0.2, 0.5])
 
+    beyond = wide and rng.random() < 0.15      # numbers with more than 12 integer digits (see known finding c16.amount_beyond_display_context_range)
+
     def num():
+        if beyond and rng.random() < 0.3:
+            return rng.choice([D('123456789012345.67'), D('-98765432109876.5'), D('1E+15'), D('1000000000000')])
+        if wide and rng.random() < 0.3:
+            return rng.choice([D('99999999999.99'), D('-12345678901.5'), D('0.000000000123'), D('1E+11'), D('99999999.99999999'), D('999999999999')])
         return rng.choice([D('0'), D('1'), D('-2.5'), D('100.12'), D('0.001'), D('12345.678'), D('3.10'), D('-7'), D('1234567.891')])
 
     def value(k):
@@ -100,6 +107,8 @@ def gen_table(rng, kinds=None, nrows=None):
             return rng.choice([0, 1, -1, 42, -1000, 123456789])
         if k == 'decimal':
             return rng.choice([D('0'), D('1'), D('-2.5'), D('100.120'), D('0.001'), D('1E+2'), D('1.5E+3'), D('1E-8'), D('-0.00001234'), D('12345.678'), D('-7')])
+        if k == 'str' and wide and rng.random() < 0.4:
+            return rng.choice(['lorem ipsum dolor sit amet ' * rng.randint(2, 8), 'Assets:' + ':'.join(f'Level{i}' for i in range(rng.randint(5, 14))), 'ü' * rng.randint(40, 90)])
         if k == 'str':
             return rng.choice(['a', '', 'hello world', 'Assets:Bank:Checking', 'é à ü', 'x' * 30, 'a,b', 'with "quotes"', 'tab\there' if False else 'semi;colon'])
         if k == 'date':
@@ -120,12 +129,12 @@ def gen_table(rng, kinds=None, nrows=None):
             cost = Cost(abs(num()) + 1, rng.choice(['USD', 'EUR']), datetime.date(2020, 1, rng.randint(1, 28)), rng.choice([None, 'lbl'])) if rng.random() < 0.5 else None
             return position.Position(amount.Amount(num(), rng.choice(curs)), cost)
         inv = inventory.Inventory()
-        for _ in range(rng.randint(0, 4)):
+        for _ in range(rng.randint(0, 4) if not wide else rng.randint(5, 18)):
             cost = Cost(D(rng.randint(1, 99)), 'USD', datetime.date(2020, 1, rng.randint(1, 28)), None) if rng.random() < 0.4 else None
             inv.add_amount(amount.Amount(rng.choice([D('1'), D('2.5'), D('-3'), D('10.001'), D('1000')]), rng.choice(curs)), cost)
         return inv
     if nrows is None:
-        nrows = rng.choice([0, 1, 2, 4, 7])
+        nrows = rng.choice([0, 1, 2, 4, 7]) if not wide else rng.choice([3, 45, 130])
     rows = [tuple(value(k) for k in kinds) for _ in range(nrows)]
     return desc, rows, kinds
 
@@ -192,6 +201,30 @@ def expected_amounts(v, kind, dc):
     return out
 
 
+def raise_mech(what, exc, rows):
+    """Mechanism of an exception escaping a renderer. Only a decimal InvalidOperation on a table that really holds an
+    amount of 10^12 or more is the known range limit of the display context; anything else is reported as such."""
+    from decimal import InvalidOperation
+    from beancount.core import amount, position, inventory
+    from beancount.core.data import Cost
+
+    def numbers(v):
+        if isinstance(v, amount.Amount):
+            yield v.number
+        elif isinstance(v, position.Position):
+            yield v.units.number
+            if v.cost is not None:
+                yield v.cost.number
+        elif isinstance(v, Cost):
+            yield v.number
+        elif isinstance(v, inventory.Inventory):
+            for p in v.get_positions():
+                yield from numbers(p)
+    if isinstance(exc, InvalidOperation) and any(n is not None and abs(n) >= 10 ** 12 for r in rows for c in r for n in numbers(c)):
+        return 'c16.amount_beyond_display_context_range'
+    return f'c16.{what}_raised.{type(exc).__name__}'
+
+
 def check_text(ctx, desc, rows, kinds, dc, opts, case, route='direct'):
     from beanquery import query_render
     out = io.StringIO()
@@ -212,7 +245,7 @@ def check_text(ctx, desc, rows, kinds, dc, opts, case, route='direct'):
         ctx.violation('c16.not_rectangular', f'{exc}', case)
         return None
     except Exception as exc:  # noqa: BLE001
-        ctx.violation(f'c16.render_text_raised.{type(exc).__name__}', f'render_text raised {type(exc).__name__}: {exc}', case)
+        ctx.violation(raise_mech('render_text', exc, rows), f'render_text raised {type(exc).__name__}: {exc}', case)
         return None
     text = out.getvalue()
     lines = text.split('\n')
@@ -389,7 +422,7 @@ def check_csv(ctx, desc, rows, kinds, dc, opts, case, text_cells=None, route='di
         else:
             query_render.render_csv(desc, rows, dc, out, expand=opts['expand'], nullvalue=opts['nullvalue'])
     except Exception as exc:  # noqa: BLE001
-        ctx.violation(f'c16.render_csv_raised.{type(exc).__name__}', f'render_csv raised {type(exc).__name__}: {exc}', case)
+        ctx.violation(raise_mech('render_csv', exc, rows), f'render_csv raised {type(exc).__name__}: {exc}', case)
         return
     recs = list(csv.reader(io.StringIO(out.getvalue())))
     ctx.count('obs.csv_renderings')
